@@ -34,9 +34,14 @@ def Out.isNote : Out → Bool
   | .readOk .. | .readFail .. | .writeOk .. | .writeFail .. => true
   | _ => false
 
-/-- the output concerns memory `k` only: a packet whose first byte is `k`, a notification for memory `k` -/
+/-- the output concerns memory `k` only: a notification for memory `k`, or a packet whose first byte is `k` - and
+which respects the limits: payload ≤ `maxDataSize`, a write request with at most `writeMax` data bytes behind the
+5-byte head, a 6-byte read request asking for at most `readMax` bytes -/
 def Out.About (k : Nat) : Out → Prop
-  | .send _ d => d.head? = some (UInt8.ofNat k)
+  | .send c d => d.head? = some (UInt8.ofNat k) ∧ d.length ≤ Gen.C06.maxDataSize ∧
+      (c = Gen.C06.chanWrite → d.length ≤ 5 + Gen.C06.writeMax) ∧
+      (c = Gen.C06.chanRead → d.length = 6 ∧ ∀ n, d[5]? = some n → n.toNat ≤ Gen.C06.readMax) ∧
+      (c = Gen.C06.chanRead ∨ c = Gen.C06.chanWrite)
   | .readOk _ i _ _ | .readFail _ i _ _ | .writeOk _ i _ | .writeFail _ i _ => i = k
   | .progress _ _ => True
 
@@ -46,6 +51,29 @@ theorem headBytes_head (k a : Nat) (rest : List UInt8) (hk : k < 256) :
 
 theorem readReqBytes_head (k a n : Nat) (hk : k < 256) : (readReqBytes k a n).head? = some (UInt8.ofNat k) := by
   simp [readReqBytes, leBytes1, Nat.mod_eq_of_lt hk]
+
+theorem about_writeSend {k : Nat} (hk : k < 256) (a : Nat) (l : List UInt8) :
+    (Out.send Gen.C06.chanWrite (headBytes k a ++ l.take (wrLen l.length))).About k := by
+  have h1 := wrLen_le l.length
+  have h2 := gen_write_fits
+  have hl : (headBytes k a ++ l.take (wrLen l.length)).length ≤ 5 + Gen.C06.writeMax := by
+    simp only [headBytes, List.length_append, leBytes_length, List.length_take]; omega
+  exact ⟨headBytes_head k a _ hk, by omega, fun _ => hl, fun h => absurd h.symm gen_chans, Or.inr rfl⟩
+
+theorem about_readSend {k : Nat} (hk : k < 256) (a x : Nat) :
+    (Out.send Gen.C06.chanRead (readReqBytes k a (rdLen x))).About k := by
+  have h1 := readLen_le x
+  have h2 := gen_read_fits
+  have h3 := gen_readMax_byte
+  refine ⟨readReqBytes_head k a _ hk, by simp [readReqBytes]; omega, fun h => absurd h gen_chans,
+    fun _ => ⟨by simp [readReqBytes], ?_⟩, Or.inl rfl⟩
+  intro n hn
+  obtain ⟨a0, a1, a2, a3, h4⟩ := leBytes4 a
+  simp only [readReqBytes, leBytes1, h4, List.cons_append, List.nil_append] at hn
+  simp only [List.getElem?_cons_succ, List.getElem?_cons_zero, Option.some.injEq] at hn
+  subst hn
+  simp only [UInt8.toNat_ofNat']
+  exact Nat.le_trans (Nat.mod_le _ _) (Nat.le_trans (Nat.mod_le _ _) h1)
 
 /-! ### the request objects -/
 
@@ -108,7 +136,7 @@ theorem writeDone_fixed {w : WReq} {id : Nat} (h : w.Ok id) (addr : Nat) :
         rcases List.mem_append.1 ho with ho | ho
         · exact ⟨(hn o ho).1, (hn o ho).2 id⟩
         · simp at ho; subst ho
-          exact ⟨rfl, by simpa [Out.About, h1.1] using headBytes_head id _ _ h1.2.1⟩
+          exact ⟨rfl, by have := about_writeSend h1.2.1 (w1.cur + w1.addrAdd) w1.rest; simpa [h1.1] using this⟩
     · exact ⟨w1, po, some true, rfl, ht, ha, h1, fun o ho => ⟨(hn o ho).1, (hn o ho).2 id⟩⟩
 
 theorem startNext_fixed {q : List WReq} {id : Nat} (h : ∀ w ∈ q, w.Ok id) (h0 : ∀ w ∈ q, w.addrAdd = 0) :
@@ -121,7 +149,7 @@ theorem startNext_fixed {q : List WReq} {id : Nat} (h : ∀ w ∈ q, w.Ok id) (h
     simp only [startNext]
     rw [writeNewChunk_ok _ (hn.1 ▸ hn.2.1) hn.2.2.1]
     refine ⟨_, _, rfl, by simp [WReq.afterChunk], ?_,
-      by simpa [Out.isNote, Out.About, hn.1] using headBytes_head id _ _ hn.2.1, ?_⟩
+      by have := about_writeSend hn.2.1 n.cur n.rest; simpa [Out.isNote, hn.1] using this, ?_⟩
     · intro w hw
       rcases List.mem_cons.1 hw with rfl | hw
       · exact WReq.afterChunk_ok hn (h0 n (by simp))
